@@ -9,7 +9,34 @@ use std::panic::{catch_unwind, AssertUnwindSafe};
 pub fn case(rng: &mut Rng, thorough: bool) -> String {
     let n = 1 + rng.below(3);
     let tp = TreeParams { in_dim: n, out_dim: 1 + rng.below(2), max_depth: if thorough { 4 } else { 3 }, partial16: *rng.pick(&[0, 0, 4]), holes: rng.chance(1, 2), palette: 0 };
-    let t: AffTree<2> = rand_tree(rng, &tp);
+    let mut t: AffTree<2> = rand_tree(rng, &tp);
+    // one tree in six was pruned in place before the regions are listed: an inner node loses all its descendants
+    // (`Tree::remove_all_descendants`, public) and becomes a terminal; sometimes a sub-tree is re-grown elsewhere
+    // afterwards, which re-uses the freed indices
+    if rng.chance(1, 6) {
+        let inner: Vec<usize> = t.tree.node_iter().filter(|(_, nd)| !nd.isleaf).map(|(i, _)| i).collect();
+        if !inner.is_empty() {
+            let idx = *rng.pick(&inner);
+            let f = rand_aff(rng, tp.out_dim, n);
+            let _ = catch_unwind(AssertUnwindSafe(|| {
+                t.tree.remove_all_descendants(idx);
+                t.tree.node_value_mut(idx).unwrap().aff = f;
+            }));
+            if rng.chance(1, 2) {
+                let leaves: Vec<usize> = t.tree.node_iter().filter(|(i, nd)| nd.isleaf && *i != idx).map(|(i, _)| i).collect();
+                if !leaves.is_empty() {
+                    let at = *rng.pick(&leaves);
+                    let pred = rand_pred(rng, 1, n, None);
+                    let (a, b) = (rand_aff(rng, tp.out_dim, n), rand_aff(rng, tp.out_dim, n));
+                    let _ = catch_unwind(AssertUnwindSafe(|| {
+                        t.tree.node_value_mut(at).unwrap().aff = pred;
+                        t.add_child_node(at, 0, a).unwrap();
+                        t.add_child_node(at, 1, b).unwrap();
+                    }));
+                }
+            }
+        }
+    }
     let mut out = String::from("C09 ");
     enc::afftree(&mut out, &t);
     // skip schedule
